@@ -2,9 +2,9 @@ import SuppModel.Drv.Util
 import SuppModel.Proj.Model
 
 /- Driver front-end of the Proj family (C09).  A request carries the variant, the fuel, the initial
-   disk, the clock and the whole history; the reply lists, per request of the history, the answer of
+   disk and the whole history (every write and touch with the mtime it gives the file); the reply lists, per request of the history, the answer of
    the long-lived project (`run`) and the answer of a fresh project on the disk of that moment
-   (`fresh`), plus the decidable hypotheses (`clockOk`, `absDisk`/`Op.isAbs`, no `recursion` in the fresh
+   (`fresh`), plus the decidable hypotheses (`freshMtimes`, `absDisk`/`Op.isAbs`, no `recursion` in the fresh
    answers) and the model's own verdict on the history (`transparentOn`). -/
 namespace SuppModel.Drv.Proj
 open Lean SuppModel.Drv SuppModel.Proj
@@ -42,8 +42,8 @@ def queryOf (j : Json) : Except String Query := do
 def opOf (j : Json) : Except String Op := do
   let a ← j.getArr?
   match (← tagOf a), a.size with
-  | "write", 3 => pure (.write (← modOf a[1]!) (← srcOf a[2]!))
-  | "touch", 2 => pure (.touch (← modOf a[1]!))
+  | "write", 4 => pure (.write (← modOf a[1]!) (← natOf a[2]!) (← srcOf a[3]!))
+  | "touch", 3 => pure (.touch (← modOf a[1]!) (← natOf a[2]!))
   | "req", 2 => pure (.request (← queryOf a[1]!))
   | t, _ => throw ("bad op " ++ t)
 
@@ -56,6 +56,7 @@ def variantOf : String → Except String Variant
   | "pinned" => pure .pinned
   | "coarseOnly" => pure .coarseOnly
   | "current" => pure .current
+  | "ltChanged" => pure .ltChanged
   | s => throw ("bad variant " ++ s)
 
 def natsJson (xs : List Nat) : Json := Json.arr (xs.map (fun (n : Nat) => Json.num n)).toArray
@@ -73,17 +74,16 @@ def handle (j : Json) : Json :=
   let r : Except String Json := do
     let v ← variantOf (← jstr j "variant")
     let fuel ← jnat j "fuel"
-    let clock ← jnat j "clock"
     let disk ← (← jarr j "disk").toList.mapM fileOf
     let ops ← (← jarr j "ops").toList.mapM opOf
-    let tr := run v fuel (World.init disk clock) ops
+    let tr := run v fuel (World.init v disk) ops
     let fr := tr.map (fun r => fresh fuel r.1 r.2.1)
     pure (Json.mkObj [
       ("answers", Json.arr (tr.map (fun r => ansJson r.2.2)).toArray),
       ("fresh", Json.arr (fr.map ansJson).toArray),
-      ("clock_ok", Json.bool (clockOk disk clock)),
+      ("fresh_mtimes", Json.bool (freshMtimes (seenOf disk) ops)),
       ("abs_ok", Json.bool (absDisk disk && ops.all Op.isAbs)),
-      ("transparent", Json.bool (transparentOn v fuel disk clock ops)),
+      ("transparent", Json.bool (transparentOn v fuel disk ops)),
       ("no_recursion", Json.bool (fr.all (· ≠ .recursion)))])
   match r with
   | .ok j => j
